@@ -113,7 +113,22 @@ func c10intRing(r *h.Rand) []P {
 	}
 	n := r.Range(3, 12)
 	var ring []P
-	if r.Bool() {
+	if r.P(1, 8) {
+		// a box, or a box with one coordinate of one corner moved (a right trapezoid, a dented box): in either winding,
+		// started at any corner. A box is the one ring shape with a cheaper answer; an almost-box is not one.
+		w, ht := r.Range(1, mag), r.Range(1, mag)
+		x0, y0 := float64(bx), float64(by)
+		x2, y2 := float64(bx+w), float64(by+ht)
+		ring = []P{{x0, y0}, {x2, y0}, {x2, y2}, {x0, y2}}
+		if r.P(3, 4) {
+			ring[r.Intn(4)][r.Intn(2)] += float64([]int{-1, 1, -2, 3, -w, ht}[r.Intn(6)])
+		}
+		k := r.Intn(4)
+		ring = append(ring[k:], ring[:k]...)
+		if r.Bool() {
+			ring = gen.Reversed(ring)
+		}
+	} else if r.Bool() {
 		// star shaped, snapped to integers (may self-touch; arbitrary lists are fine for the shoelace)
 		ring = gen.Star(r, n, float64(bx), float64(by), float64(mag)/4, float64(mag), 1)
 	} else {
